@@ -222,7 +222,9 @@ def _encode_loop(node, lid, fn_locals=frozenset()):
     # __pyvc_loop_enter__(lid, locals()) returns a dict of havocked locals, applied via exec-free assignment:
     # we assign each modified local explicitly: names come from the loop spec at run time, so we use a
     # generic update through a helper that returns a tuple in the order of `__pyvc_loop_names__(lid)`.
-    loaded = sorted({n.id for n in ast.walk(node) if isinstance(n, ast.Name) and isinstance(n.ctx, ast.Load)})
+    # names the body reads; the target of a `for` is bound by the loop itself before the body runs
+    own = {n.id for n in ast.walk(node.target) if isinstance(n, ast.Name)} if isinstance(node, ast.For) else set()
+    loaded = sorted({n.id for n in ast.walk(node) if isinstance(n, ast.Name) and isinstance(n.ctx, ast.Load)} - own)
     enter = ast.Expr(value=_call("__pyvc_loop_enter__", ast.Constant(lid), _locals(),
                                  ast.List(elts=[ast.Constant(n) for n in loaded], ctx=ast.Load())))
     names = _assigned_names(node) | (set(loaded) & set(fn_locals))
